@@ -224,6 +224,38 @@ func init() {
 			js(c, &c01Struct{Shape: s, Tag: "edge:all-fields"})
 		}
 
+		// ------------------------------------------------------------ outpoints with a meaning of their own
+		// previous txids that are all zero / all ones / one bit, with index and sequence at their edges,
+		// on 1 .. 3 inputs (one input spending 00..00:ffffffff is what a coinbase looks like): the recorded
+		// previous value and script are data like any other
+		c.Phase("special-outpoints")
+		n = 0
+		for _, id := range [][]byte{make([]byte, 32), bytes.Repeat([]byte{0xff}, 32), append(make([]byte, 31), 1), append([]byte{1}, make([]byte, 31)...)} {
+			for _, vout := range []uint32{0, 1, 0xfffffffe, 0xffffffff} {
+				for _, seq := range []uint32{0, 0xfffffffe, 0xffffffff} {
+					for nin := 1; nin <= 3; nin++ {
+						n++
+						if !c.Case(n) {
+							continue
+						}
+						r := c.Rand(n)
+						s := &gen.Shape{Version: 1 + uint32(n%2), LockTime: uint32(n % 3)}
+						for k := 0; k < nin; k++ {
+							in := gen.In{TxID: r.Bytes(32), Vout: gen.U32(r), Seq: gen.U32(r), Unlock: r.Bytes(r.Intn(5)), PrevSats: 1 + gen.Sats(r), PrevScript: gen.P2PKH(r.Bytes(20))}
+							if k == int(n)%nin {
+								in.TxID, in.Vout, in.Seq = append([]byte{}, id...), vout, seq
+							}
+							s.Ins = append(s.Ins, in)
+						}
+						for k := 0; k < int(n%3); k++ {
+							s.Outs = append(s.Outs, gen.Out{Sats: gen.Sats(r), Script: gen.P2PKH(r.Bytes(20))})
+						}
+						js(c, &c01Struct{Shape: s, Tag: "special-outpoint"})
+					}
+				}
+			}
+		}
+
 		// ------------------------------------------------------------ nil / empty scripts
 		c.Phase("prev-nil")
 		n = 0
